@@ -19,7 +19,9 @@ LEVEL = "exploration"
 RULE = ("every bpf() map syscall the library issues while running the C09 "
         "workloads (hash-map variables of every format: defaults, Python "
         "reads/writes; Dict set/get/del/pop/iteration/values on random "
-        "Key/Value layouts, plain and LRU) and a per-CPU workload is "
+        "Key/Value layouts, plain and LRU) and a per-CPU workload (maps "
+        "created and read under the full and under narrowed CPU affinity "
+        "masks) is "
         "intercepted at ebpfcat.bpf.bpf; the size of the Python object behind "
         "each key/value/next-key pointer (recorded at addrof/addressof/"
         "c_char.from_buffer) is compared with the map geometry recorded at "
@@ -69,27 +71,39 @@ def absorb(mon, res, what):
 
 
 def percpu_workload(res, rng):
-    for fmt in ["I", "Q", "B", "h"]:
+    """per-CPU maps created and read under the full and under narrowed CPU
+    affinity masks (taskset / cpuset configurations): the kernel sizes the
+    value by the POSSIBLE CPUs whatever the mask"""
+    allowed = sorted(os.sched_getaffinity(0))
+    masks = [set(allowed), {rng.choice(allowed)},
+             set(rng.sample(allowed, max(1, len(allowed) // 2))),
+             set(rng.sample(allowed, min(len(allowed), 2)))]
+    for fmt, mask in zip(["I", "Q", "B", "h"], masks):
         with kern.session() as sess:
-            pm = PerCPUArrayMap()
-            nvars = rng.randint(1, 5)
-            ns = {"license": "GPL", "pm": pm}
-            for i in range(nvars):
-                ns[f"c{i}"] = pm.globalVar(rng.choice("BHIQbhiq"))
-            ns["c"] = pm.globalVar(fmt)
+            try:
+                os.sched_setaffinity(0, mask)
+                pm = PerCPUArrayMap()
+                nvars = rng.randint(1, 5)
+                ns = {"license": "GPL", "pm": pm}
+                for i in range(nvars):
+                    ns[f"c{i}"] = pm.globalVar(rng.choice("BHIQbhiq"))
+                ns["c"] = pm.globalVar(fmt)
 
-            def program(self):
-                self.c = 7
-                self.r0 = 2
-                self.exit()
-            ns["program"] = program
-            e = type("VfPC", (XDP,), ns)()
-            ld = prog.Loaded(e, sess)
-            with sysmon.Monitor(sess) as mon:
-                ld.load()
-                ld.run_k(bytes(64))
-                e.pm.read()
-                _ = [e.c[i] for i in range(len(e.c))]
+                def program(self):
+                    self.c = 7
+                    self.r0 = 2
+                    self.exit()
+                ns["program"] = program
+                with sysmon.Monitor(sess) as mon:
+                    e = type("VfPC", (XDP,), ns)()
+                    ld = prog.Loaded(e, sess)
+                    ld.load()
+                    ld.run_k(bytes(64))
+                    e.pm.read()
+                    _ = [e.c[i] for i in range(len(e.c))]
+                res.count(f"percpu_affinity[{len(mask)} of {len(allowed)}]")
+            finally:
+                os.sched_setaffinity(0, set(allowed))
             absorb(mon, res, "percpu")
             ld.close()
 
